@@ -159,15 +159,21 @@ func validateProtocolSequenceNames(env *Environment, errorSink *validation.Error
 }
 
 func validateStreams(env *Environment, errorSink *validation.ErrorSink) *Environment {
+	// The context is the protocol step while we are looking at the step's own type, and something else below it.
 	VisitWithContext(env, nil, func(self VisitorWithContext[Node], node Node, context Node) {
-		switch node.(type) {
+		switch t := node.(type) {
 		case TypeDefinition:
 			self.VisitChildren(node, node)
-		case *Stream:
-			if _, isProtocol := (context).(*ProtocolDefinition); !isProtocol {
-				errorSink.Add(validationError(node, "!streams can only be declared as top-level protocol sequence elements"))
+		case *ProtocolStep:
+			self.VisitChildren(node, node)
+		case *GeneralizedType:
+			if stream, isStream := t.Dimensionality.(*Stream); isStream {
+				if _, isStep := (context).(*ProtocolStep); !isStep {
+					errorSink.Add(validationError(stream, "!streams can only be declared as top-level protocol sequence elements"))
+				}
 			}
 
+			// anything inside this type (stream items, vector items, union cases...) is not at the top level of a step
 			self.VisitChildren(node, node)
 		default:
 			self.VisitChildren(node, context)
